@@ -3,3 +3,4 @@ from . import targets_explicit  # noqa: F401,E402  (Gen/GlobalProfiler.v: C14, C
 from . import targets_wrap  # noqa: F401,E402  (Gen/ByCount.v, C05)
 from . import targets_ast  # noqa: F401,E402  (Gen/Select.v: C09/C08)
 from . import targets_pyx  # noqa: F401,E402  (Gen/TraceCore.v: the tracer core of the .pyx, E1)
+from . import targets_pylayer  # noqa: F401,E402  (Gen/PyLayer.v: the Python layer of LineProfiler, E1)
